@@ -23,8 +23,11 @@ keys entries by their argument: a run consumes the first registered copy, a remo
 handle of the key must remove the single registered copy if there is exactly one, and is not issued
 while two copies are registered (which one goes would change the survivor's position); in the
 *before* phase removal of an already-run trigger is never generated (BEFORE state: only a
-deprecation warning); triggers are not added while an event is firing
-and fireEvent() is not re-entered (unspecified); Deferreds returned by during/after triggers are
+deprecation warning).  Triggers are also registered while the event is firing (from inside
+before/during/after triggers and while before-Deferreds are outstanding): the statement does not say
+which firing such a trigger joins, so that is counted but not judged -- judged is that it runs exactly
+once, in this firing or the next, after every earlier registration of its phase, never out of phase
+order and never while a before-Deferred is unfired.  fireEvent() is not re-entered (unspecified); Deferreds returned by during/after triggers are
 ignored by the implementation and by the oracle.
 """
 import gc
@@ -45,7 +48,9 @@ FLOORS = {"trigger_runs": 20000, "order_checks": 20000, "gated_firings": 1000, "
           "removed_never_ran": 1000, "removals_inside_triggers": 300, "removals_while_gated": 200, "double_removals_refused": 200,
           "completions_checked": 3000, "second_rounds": 500, "permutation_cases": 400, "api_reactor": 1000, "api_event": 1000,
           "odd_removals_of_already_run_trigger": 1000, "odd_removals_of_own_handle": 300, "duplicate_registrations": 1000,
-          "duplicate_copy_removed_via_other_handle": 15}
+          "duplicate_copy_removed_via_other_handle": 15,
+          "added_while_firing_before": 300, "added_while_firing_during": 300, "added_while_firing_after": 300,
+          "added_while_firing_ran_in_same_firing": 300, "added_while_firing_left_for_next_firing": 100, "flush_firings": 100}
 READY = True
 PHASES = ("before", "during", "after")
 
@@ -69,7 +74,9 @@ def gen_case(rng):
             for _ in range(rng.choice([1, 1, 2])):
                 odd.append(rng.choice([["self"], ["ran", rng.randrange(24)], ["ran", rng.randrange(24)], ["any", rng.randrange(32)],
                                        ["dup", rng.randrange(8)]]))
-        return {"phase": phase, "kind": kind, "ok": rng.random() < 0.7, "rm": rm, "odd": odd}
+        # registrations made while the event is firing (from inside this trigger)
+        adds = [rng.choice(PHASES) for _ in range(rng.choice([1, 1, 2]))] if rng.random() < 0.12 else []
+        return {"phase": phase, "kind": kind, "ok": rng.random() < 0.7, "rm": rm, "odd": odd, "adds": adds}
 
     def segment(n):
         specs = [trig() for _ in range(n)]
@@ -80,9 +87,9 @@ def gen_case(rng):
                 if not cands:
                     break
                 o = rng.choice(cands)
-                o.update(kind="ret", rm=[], odd=[])
+                o.update(kind="ret", rm=[], odd=[], adds=[])
                 pos = rng.randrange(specs.index(o) + 1, len(specs) + 1)
-                specs.insert(pos, {"phase": o["phase"], "kind": "ret", "ok": True, "rm": [], "odd": [], "dup_of": o})
+                specs.insert(pos, {"phase": o["phase"], "kind": "ret", "ok": True, "rm": [], "odd": [], "adds": [], "dup_of": o})
         return specs
 
     s1 = segment(rng.randrange(1, 21))
@@ -130,6 +137,8 @@ class Monitor:
         self.spec = {t["id"]: t for t in case["triggers"]}
         self.key_of = {t["id"]: t.get("key", t["id"]) for t in case["triggers"]}  # duplicates share their original's key
         self.status = {}  # entry id -> "present" | "removed" | "ran"
+        self.floating = set()  # registered while the event was firing: may run in this firing or must run in the next
+        self.next_id = len(case["triggers"])
         if api == "event":
             self.ev = base._ThreePhaseEvent()
             self.add = lambda phase, f, *a: self.ev.addTrigger(phase, f, *a)
@@ -203,6 +212,10 @@ class Monitor:
             else:
                 tgt = sorted(self.handles)[o[1] % len(self.handles)]
             self.do_remove(tgt, "odd-%s-in-%d" % (o[0], eid))
+        for ph in t.get("adds", ()):
+            if self.bad:
+                break
+            self.add_dynamic(ph, "inside-%d" % eid)
         if t["kind"] == "raise":
             self.stat("raising_triggers")
             raise Boom(eid)
@@ -236,18 +249,21 @@ class Monitor:
                 return self.fail("gate-open-with-unfired-deferreds", "%s-trigger %d ran while %d Deferreds returned by before-triggers "
                                  "are unfired" % (phase, tid, len(self.outstanding)), trigger=tid,
                                  unfired=[o[0] for o in self.outstanding])
-            if self.present["before"]:
+            if self.solid("before"):
                 return self.fail("phase-order", "%s-trigger %d ran while before-triggers %s have not run"
-                                 % (phase, tid, self.present["before"]), trigger=tid)
+                                 % (phase, tid, self.solid("before")), trigger=tid)
             if phase == "during" and any(p == "after" for _, p in self.ran):
                 return self.fail("phase-order", "during-trigger %d ran after an after-trigger" % tid, trigger=tid)
-            if phase == "after" and self.present["during"]:
+            if phase == "after" and self.solid("during"):
                 return self.fail("phase-order", "after-trigger %d ran while during-triggers %s have not run"
-                                 % (tid, self.present["during"]), trigger=tid)
+                                 % (tid, self.solid("during")), trigger=tid)
         if self.present[phase][0] != tid:
             return self.fail("registration-order", "%s-trigger %d ran before %d which was registered earlier and is still registered"
                              % (phase, tid, self.present[phase][0]), trigger=tid)
         self.stat("order_checks")
+        if tid in self.floating:
+            self.floating.discard(tid)
+            self.stat("added_while_firing_ran_in_same_firing")  # (which firing it joins: statement silent, unjudged)
 
     # ---- harness operations
     def pick_present(self, j):
@@ -256,8 +272,23 @@ class Monitor:
             return None
         return allp[j % len(allp)]
 
+    def solid(self, phase):
+        return [e for e in self.present[phase] if e not in self.floating]
+
+    def add_dynamic(self, phase, where):
+        """Register a fresh plain trigger now (used while the event is firing)."""
+        eid = self.next_id
+        self.next_id += 1
+        self.spec[eid] = {"id": eid, "phase": phase, "kind": "ret", "ok": True, "rm": [], "odd": [], "adds": []}
+        self.key_of[eid] = eid
+        self.do_add(eid)
+        self.events.append(("added-while-firing", eid, phase, where))
+        self.stat("added_while_firing_" + phase)
+
     def do_add(self, eid):
         t = self.spec[eid]
+        if self.firing:
+            self.floating.add(eid)
         self.handles[eid] = self.add(t["phase"], self.trigger, self.key_of[eid])
         self.present[t["phase"]].append(eid)
         self.status[eid] = "present"
@@ -334,9 +365,13 @@ class Monitor:
     def check_complete(self, after):
         if self.bad:
             return
-        left = {p: list(v) for p, v in self.present.items() if v}
+        left = {p: self.solid(p) for p in PHASES if self.solid(p)}
         if left:
             return self.fail("trigger-not-run", "after %s the firing is complete in the model but triggers %s did not run" % (after, left))
+        if self.floating:
+            # registered during this firing and not run in it: they are ordinary registrations for the next firing
+            self.stat("added_while_firing_left_for_next_firing", len(self.floating))
+            self.floating.clear()
         self.firing = False
         self.stat("completions_checked")
 
@@ -351,6 +386,14 @@ class Monitor:
             for t in c["triggers"][n1:]:
                 self.do_add(t["id"])
             self.round([self.decide(24)], None)
+        for _ in range(2):
+            # triggers registered during a firing that did not join it must run, exactly once, in the next one
+            if not self.bad and any(self.present[p] for p in PHASES):
+                self.stat("flush_firings")
+                self.round([], None)
+        if not self.bad and any(self.present[p] for p in PHASES):
+            self.fail("trigger-not-run", "triggers %s are still registered after two more firings"
+                      % {p: list(v) for p, v in self.present.items() if v})
         if not self.bad:
             # (a run that finds no registered copy is flagged when it happens, so these never ran)
             self.stat("removed_never_ran", sum(1 for v in self.status.values() if v == "removed"))
@@ -376,6 +419,8 @@ class Monitor:
                 k = [o[0] for o in self.outstanding].index(want)
             else:
                 k = self.decide(16)
+                if self.decide(6) == 0:
+                    self.add_dynamic(PHASES[self.decide(3)], "gated")
                 if self.decide(4) == 0:
                     later = self.present["during"] + self.present["after"]
                     if later:
